@@ -225,6 +225,8 @@ def gen_spec(rng, fmt):
         if q not in used:
             used.add(q)
             entries.append([q, "f", False])
+    if rng.random() < 0.4:
+        populated_nested(rng, fmt, entries, used)
     fill("", 0, True)
     # special root-level / versioned-dir situations
     r = rng.random()
@@ -245,6 +247,43 @@ def gen_spec(rng, fmt):
     # the ignore file: versioned, unknown or absent
     igv = rng.random() < 0.5
     return dict(fmt=fmt, entries=entries, rules=rules, ignore_versioned=igv)
+
+
+def populated_nested(rng, fmt, entries, used, top=None):
+    """a nested tree whose root the outer tree's extras() descends into (git outer tree: nested bzr
+    branch; bzr outer tree: the nested root and its subdirectories are versioned and hold a git
+    repository), with several unversioned files in each of several subdirectories at depth >= 2
+    and >= 3 below the control directory's parent"""
+    chain = [top or rng.choice(DIRS)]
+    if rng.random() < 0.4:
+        chain.append(rng.choice(DIRS))
+    vdirs = fmt == "2a"
+
+    def put(p, typ, v):
+        if p not in used:
+            used.add(p)
+            entries.append([p, typ, bool(v)])
+
+    for k in range(len(chain)):
+        put("/".join(chain[:k + 1]), "d", vdirs)
+    nroot = "/".join(chain)
+    put(nroot + "/" + (".git" if fmt == "2a" else ".bzr"), "G" if fmt == "2a" else "B", False)
+    subs = rng.sample(["sub", "e", "w", "t.tmp"], rng.randint(2, 3))
+    for sname in subs:
+        sp = nroot + "/" + sname
+        put(sp, "d", vdirs)
+        if vdirs:
+            put(sp + "/tracked", "f", True)       # keeps the directory in the outer inventory
+        for fn in rng.sample(["a", "b.txt", "c.o", "x~", "y.tmp", "README", "n.orig"], rng.randint(2, 4)):
+            put(sp + "/" + fn, "f", False)
+        if rng.random() < 0.7:
+            dp = sp + "/" + rng.choice(["deep", "d"])
+            put(dp, "d", vdirs)
+            if vdirs:
+                put(dp + "/tracked", "f", True)
+            for fn in rng.sample(["a", "b.txt", "k.pyc", "m.THIS", "tmp"], rng.randint(2, 3)):
+                put(dp + "/" + fn, "f", False)
+    put(nroot + "/" + rng.choice(["inner.txt", "a"]), "f", False)
 
 
 def materialise(spec, root, outside):
@@ -554,9 +593,10 @@ def protected_hits(x, info, nroots, ctl_entries):
         if under(x, nr):
             if not any(under(x, c) for c in ctl_entries if under(nr, c)):
                 hits.append(("is or contains the nested branch", nr))
-        elif under(nr, x) and not info[nr][2] and not any(under(c, x) for c in ctl_entries):
-            # a file of a nested branch that the outer tree does not version
-            hits.append(("is a working file of the unversioned nested branch", nr))
+        elif under(nr, x) and not any(under(c, x) for c in ctl_entries):
+            # a working file of a nested tree (whether or not the outer tree versions the nested
+            # root: since fix 0d2b8ad nothing below a directory that holds a control name is touched)
+            hits.append(("is a working file of the nested tree", nr))
     return hits
 
 
@@ -636,6 +676,24 @@ SCENARIOS = [
                 ["a/c.o", "f", False]], ["*.o"]),
     _sc("2a", [["v", "f", True], [".git", "G", False], ["w", "d", True], ["w/f", "f", True], ["w/.git", "G", False],
                ["w/u~", "f", False], ["lnk", "Lo", False], ["lf", "Lf", False]]),
+    # several candidates per subdirectory, several subdirectories, depth 2 and 3 below a nested
+    # control directory; both outer formats (seeded change: memoised "plain" parent directories)
+    _sc("git", [["v", "f", True], ["nested", "d", False], ["nested/.bzr", "B", False], ["nested/top", "f", False],
+                ["nested/sub", "d", False], ["nested/sub/a", "f", False], ["nested/sub/b", "f", False],
+                ["nested/sub/c", "f", False], ["nested/sub/deep", "d", False], ["nested/sub/deep/x", "f", False],
+                ["nested/sub/deep/y", "f", False], ["nested/sub/deep/z", "f", False],
+                ["nested/sub2", "d", False], ["nested/sub2/p", "f", False], ["nested/sub2/q", "f", False],
+                ["nested/sub2/r", "f", False], ["plain", "d", False], ["plain/s", "d", False],
+                ["plain/s/one", "f", False], ["plain/s/two", "f", False]]),
+    _sc("2a", [["v", "f", True], ["nested", "d", True], ["nested/.git", "G", False], ["nested/top", "f", False],
+               ["nested/sub", "d", True], ["nested/sub/tracked", "f", True], ["nested/sub/a", "f", False],
+               ["nested/sub/b", "f", False], ["nested/sub/c", "f", False], ["nested/sub/deep", "d", True],
+               ["nested/sub/deep/tracked", "f", True], ["nested/sub/deep/x", "f", False],
+               ["nested/sub/deep/y", "f", False], ["nested/sub/deep/z", "f", False],
+               ["nested/sub2", "d", True], ["nested/sub2/tracked", "f", True], ["nested/sub2/p", "f", False],
+               ["nested/sub2/q", "f", False], ["nested/sub2/r", "f", False],
+               ["plain", "d", True], ["plain/s", "d", True], ["plain/s/tracked", "f", True],
+               ["plain/s/one", "f", False], ["plain/s/two", "f", False]]),
     _sc("git", [["d", "d", False], ["d/v", "f", True], ["d/u.tmp", "f", False], ["d/k.o", "f", False],
                 ["lnk", "Lo", False], ["lf", "Lf", False], ["s", "d", False], ["s/.git", "gf", False],
                 ["s/x", "f", False]], ["*.o"]),
@@ -654,7 +712,7 @@ def run(ctx):
         for fn in sorted(os.listdir(cdir)):
             if fn.endswith(".json"):
                 specs.append(json.load(open(os.path.join(cdir, fn)))["spec"])
-    specs.extend(SCENARIOS)
+    specs.extend(sc for sc in SCENARIOS if sc not in specs)   # corpus files may pin the same layouts
     n = ctx.pick(12, 120)
     for k in range(n):
         for fmt in ("2a", "git"):
